@@ -165,6 +165,8 @@ pub fn run(args: &Args, sh: &mut Shard) {
         "C03" => ("pops_attempted", 100),
         _ => ("bytes_checked", 100),
     };
+    // (per shard; Miri shards are six short histories each, the merged-run thresholds are in plan.json)
+    let need = (need.0, if args.is_miri() { 5 } else { need.1 });
     if !sh.has_own_violation() && *sh.counters.get(need.0).unwrap_or(&0) < need.1 {
         sh.inconclusive.push(format!("observation threshold not met: {} = {} < {}", need.0, sh.counters.get(need.0).unwrap_or(&0), need.1));
     }
